@@ -126,6 +126,10 @@ def compare(ref, got, path=""):
             if set(ref) != set(got):
                 yield (path, "different", sorted(ref), sorted(got))
                 return
+        if path.endswith(("modes", "fans")) and set(ref) != set(got):
+            # a support map lists exactly the documented modes / speeds
+            yield (path, "different", sorted(ref), sorted(got))
+            return
         for k, rv in ref.items():
             if k not in got:
                 continue  # reference-only helper keys (raw readings)
